@@ -284,6 +284,8 @@ def progression_after(start, per_us, now, stop=None):
 def oracle_next1(s, now, startup, tabs, cid=None):
     """least denoted instant strictly after now (the start-up rule aside); None when there is none;
     'n/a' outside the strict class"""
+    if s["kind"] == "period" and off_us(s["per"]) > 0 and (_no_such_day(s["s"], now) or _no_such_day(s["e"], now)):
+        return None          # like once(2/29 ...) in a common year (fix b7a2f54): nothing to announce, the other entries count
     if not strict_class(s):
         return "n/a"
     sun = tabs.sun
@@ -555,6 +557,13 @@ def gen_boundary(rng, k):
                               (["md", 2, 28], ["hms", 24, 0, 0], None), (["md", 3, 1], "midnight", [-1, "1", "d"])):
             base = rng.choice(bases)
             out += _bcases(rng, [once(date, tm, off)], base, base - dt.timedelta(seconds=rng.choice([0, 60, 86400 * 40])), "date", depth=2)
+        # 29 Feb next to another entry (since b7a2f54 a once() that has no date this year is skipped) and as start / end of a period()
+        for sp in (once(["md", 2, 29], ["hms", 8, 0, 0]), per(hm(8, 0, 0, ["md", 2, 29]), [1, "1", "h"]),
+                   per(hm(8, 0), [1, "1", "h"], hm(12, 0, 0, ["md", 2, 29])), per(hm(8, 0, 0, ["md", 2, 29]), [1, "6", "hours"], hm(20, 0, 0, ["md", 2, 29]))):
+            base = rng.choice([D(2023, 12, 31, 23, 0), D(2025, 2, 28, 12), D(2025, 1, 1), D(2024, 2, 28, 23, 59, 59), D(2024, 2, 29, 7, 30)])
+            specs = [sp, once("none", "noon")]
+            rng.shuffle(specs)
+            out += _bcases(rng, specs, base, base - dt.timedelta(seconds=rng.choice([0, 3600])), "no such day this year", depth=2)
         # ---- sunrise / sunset with an offset in every unit name, whole and fractional, both signs, zero
         units = list(W.UNITS)
         rng.shuffle(units)
@@ -1512,17 +1521,20 @@ def classify(c, reason):
         # fixed by 0421163 (new subsystem re-checked the wall clock against time_next_adj): a regression, never a known finding
         return "dst:regressed:new:cron:fall:late" if sig == "dst:new:cron:fall:late" else sig
     if p["kind"] == "ha" and any(x["kind"] == "cron" and x["expr"] in DEAD_CRONS for x in p["scen"]["funcs"][p["fi"]]["specs"]):
-        # every announced run is missing and nothing else happened: the trigger died on the exception
-        return "cron:impossible-day-raises" if c.impl == "" else "cron:impossible-day:other"
+        # every announced run is missing and nothing else happened: the trigger died on the exception.  Fixed by b7a2f54 (the
+        # entry is skipped): a regression, never a known finding
+        return "cron:regressed:impossible-day-raises" if c.impl == "" else "cron:impossible-day:other"
     if p["kind"] != "next":
         return p["kind"] + ":" + re.sub(r"\d+", "N", reason)[:50]
     if c.impl == "raise" and reason.startswith("raised"):
         now_ = dt_of(p["now"])
+        # C06-F9 / C06-F10 are fixed by b7a2f54 (such entries are skipped): these signatures match no known finding
         if any(x["kind"] == "cron" and cron_valid(x["expr"]) and cron_next(x["expr"], now_) is None for x in p["specs"]):
-            return "cron:impossible-day-raises"
-        feb29 = [x for x in p["specs"] if x["kind"] == "once" and x["d"][0] == "at" and x["d"][1] == ["md", 2, 29]]
-        if feb29 and not _leap(now_.year):
-            return "once:feb-29-raises-in-common-year"
+            return "cron:regressed:impossible-day-raises"
+        if any(_no_such_day(d_, now_) for x in p["specs"] if x["kind"] == "period" for d_ in (x["s"], x["e"])):
+            return "period:month-day-not-this-year-raises"           # open finding C06-F11: period() parses outside the try
+        if any(x["kind"] == "once" and _no_such_day(x["d"], now_) for x in p["specs"]):
+            return "once:regressed:feb-29-raises-in-common-year"
     if not reason.startswith("next=") and "is not after now" not in reason:
         return "next:" + re.sub(r"-?\d+", "N", reason)[:60]
     # which specification deviates?
@@ -1571,7 +1583,7 @@ def classify(c, reason):
         if requery:
             # the answer moves when asked again: a weekday / month-day date whose offset carries the instant out of its day
             if s["kind"] == "once" and s["d"][0] == "at" and not isinstance(s["d"][1], str) and s["d"][1][0] in ("dow", "md") \
-                    and not 0 <= off_us(s["d"][3]) + _tod_us(s["d"][2]) < 86400 * 1000000:
+                    and _out_of_day(s["d"], now, st):
                 return "once:weekday-offset-skips-an-instant" if s["d"][1][0] == "dow" else "once:month-day-offset-skips-an-instant"
             continue
         if s["kind"] == "once":
@@ -1580,6 +1592,10 @@ def classify(c, reason):
                 try:
                     today = oracle_dt(d, now, st)[0]
                 except ValueError:
+                    if got == "none" and not isinstance(d[1], str) and d[1][0] == "md":
+                        # 2/29 asked in a common year: since b7a2f54 the entry is skipped - only this year's date is looked at,
+                        # next year's 29 February is never announced from here (the cause of C06-F2b)
+                        return "once:month-day-after-this-years"
                     return "once:raise"
                 form = None if isinstance(d[1], str) else d[1][0]
                 if got == "none":
@@ -1599,6 +1615,27 @@ def classify(c, reason):
             return "once:other"
         return s["kind"] + ":other"
     return "next:requery" if requery else "next:list-combination"
+
+
+def _out_of_day(d, ref, st):
+    """time of day plus offset carry the instant out of the day the date names (sunrise / sunset: looked up)"""
+    try:
+        inst = oracle_dt(d, ref, st)[0]
+        day = oracle_dt(["at", d[1], "midnight", None], ref, st)[0]
+    except ValueError:
+        return False
+    return not day <= inst < day + DAY
+
+
+def _no_such_day(d, now):
+    """a month/day date that does not exist in the year of `now` (2/29 in a common year)"""
+    if d is None or d[0] != "at" or isinstance(d[1], str) or d[1][0] != "md":
+        return False
+    try:
+        dt.date(now.year, d[1][1], d[1][2])
+        return False
+    except ValueError:
+        return True
 
 
 def _leap(y):
